@@ -46,8 +46,11 @@ def main():
             {"name": "pyvc", "path": "vf/pyvc", "serves_properties": sorted(p for p in C if "pyvc" in C[p].get("engine", "pyvc")),
              "kind_free_text": "weakest-precondition / path-wise symbolic VC generator over the real Python source (ast re-read every run), "
                                "sidecar contracts, loops cut by invariants, calls by contract, obligations discharged by z3 (API 5.1.0)"},
-            {"name": "llk", "path": "vf/llk", "serves_properties": sorted(p for p in C if "llk" in C[p].get("engine", "")),
-             "kind_free_text": "predictive-parser extraction: guarded regular expressions of Parser.parse_* vs spec grammar (language equality, PREDICT sets)"},
+            {"name": "tracecheck", "path": "vf/tracecheck.py", "serves_properties": sorted(p for p in C if "tracecheck" in C[p].get("engine", "")),
+             "kind_free_text": "trace contracts (ghost event words) checked on every syntactic path of the real function, values abstracted, exceptions "
+                               "dispatched by the real class hierarchy, local closures inlined, callback-taking callees by effect contract"},
+            {"name": "ctorcheck", "path": "vf/ctorcheck.py", "serves_properties": sorted(p for p in C if "ctorcheck" in C[p].get("engine", "")),
+             "kind_free_text": "attribute-preservation obligations: every constructor parameter of a rebuilt schema element is derived from the source element"},
             {"name": "rtc", "path": "vf/rtc.py", "serves_properties": sorted(p for p in C if "rtc" in C[p].get("engine", "rtc")),
              "kind_free_text": "the same contracts checked at run time on exhaustively enumerated bounded inputs (bounded stand-in, never counted as proof)"},
         ],
